@@ -25,8 +25,8 @@ def db_shards(profiles):
     def f(tier, seed, search=False):
         out = []
         for prof in profiles:
-            k = 4 if tier == "quick" else 16
-            n, steps = (60, 50) if tier == "quick" else (600, 80)
+            k = 8 if tier == "quick" else 16
+            n, steps = (150, 60) if tier == "quick" else (1500, 80)
             if prof == "persist":
                 n = n // 3
             for s in seeds(seed, k):
@@ -68,7 +68,7 @@ def c03_shards(tier, seed, search=False):
 
 
 def c05_shards(tier, seed, search=False):
-    k, n, steps = (4, 3, 25) if tier == "quick" else (16, 6, 40)
+    k, n, steps = (8, 4, 30) if tier == "quick" else (16, 10, 40)
     return [Shard("crypto", ["-seed", str(s), "-n", str(n), "-steps", str(steps)] + (["-profile", "thorough"] if tier == "thorough" else []))
             for s in seeds(seed, k)]
 
@@ -107,7 +107,7 @@ PROPS["C04"]["exhaustive"] = True
 
 
 def http_shards(tier, seed, search=False):
-    k, n, steps = (4, 60, 50) if tier == "quick" else (16, 400, 80)
+    k, n, steps = (8, 120, 60) if tier == "quick" else (16, 1000, 80)
     return [Shard("http", ["-seed", str(s), "-n", str(n), "-steps", str(steps)]) for s in seeds(seed, k)]
 
 
@@ -146,7 +146,7 @@ PROPS["C18"] = dict(
 
 
 def store_shards(tier, seed, search=False):
-    k, n, steps = (6, 150, 25) if tier == "quick" else (16, 1500, 40)
+    k, n, steps = (8, 400, 30) if tier == "quick" else (16, 4000, 40)
     return [Shard("store", ["-seed", str(s), "-n", str(n), "-steps", str(steps)], driver="store", binary="storetrace") for s in seeds(seed, k)]
 
 
@@ -169,7 +169,7 @@ PROPS["C13"]["diverge"] = lambda l: "flush" in l or l.startswith("DIVERGE new") 
 
 
 def lookup_shards(tier, seed, search=False):
-    k, n = (4, 300) if tier == "quick" else (16, 3000)
+    k, n = (8, 800) if tier == "quick" else (16, 8000)
     return [Shard("lookup", ["-seed", str(s), "-n", str(n)], driver="lookup", binary="storetrace") for s in seeds(seed, k)]
 
 
@@ -186,7 +186,7 @@ PROPS["C16"] = dict(
 
 
 def backup_shards(tier, seed, search=False):
-    k, n = (6, 40) if tier == "quick" else (16, 300)
+    k, n = (8, 120) if tier == "quick" else (16, 1200)
     return [Shard("backup", ["-seed", str(s), "-n", str(n)], driver="backup", binary="storetrace") for s in seeds(seed, k)]
 
 
@@ -202,7 +202,7 @@ PROPS["C17"] = dict(
 
 
 def fields_shards(tier, seed, search=False):
-    k, n = (4, 1500) if tier == "quick" else (16, 20000)
+    k, n = (8, 4000) if tier == "quick" else (16, 40000)
     return [Shard("fields", ["-seed", str(s), "-n", str(n)], driver="fields") for s in seeds(seed, k)]
 
 
@@ -218,7 +218,7 @@ PROPS["C20"] = dict(
 
 
 def updater_shards(tier, seed, search=False):
-    k, n, steps = (4, 300, 30) if tier == "quick" else (16, 3000, 50)
+    k, n, steps = (8, 400, 40) if tier == "quick" else (16, 4000, 60)
     return [Shard("updater", ["-seed", str(s), "-n", str(n), "-steps", str(steps)], driver="updater", binary="storetrace") for s in seeds(seed, k)]
 
 
@@ -233,7 +233,7 @@ PROPS["C15"] = dict(
 
 
 def conc_shards(tier, seed, search=False):
-    k, n = (6, 150) if tier == "quick" else (16, 2000)
+    k, n = (8, 400) if tier == "quick" else (16, 4000)
     return [Shard("conc", ["-seed", str(s), "-n", str(n)], driver="conc", binary="trace-race", race_props=["C14", "C06"]) for s in seeds(seed, k)]
 
 
@@ -255,7 +255,7 @@ PROPS["C06"]["rule"] = PROPS["C06"]["rule"] + "; plus the concurrent family (rea
 
 
 def concstore_shards(tier, seed, search=False, props=("C12",)):
-    k, n = (6, 4) if tier == "quick" else (16, 30)
+    k, n = (8, 6) if tier == "quick" else (16, 40)
     return [Shard("concstore", ["-seed", str(s), "-n", str(n)], driver="concstore", binary="storetrace-race", race_props=list(props)) for s in seeds(seed, k)]
 
 
@@ -272,3 +272,11 @@ PROPS["C12"] = dict(
 PROPS["C15"]["race"] = True
 _c15 = PROPS["C15"]["shards"]
 PROPS["C15"]["shards"] = lambda tier, seed, search=False: _c15(tier, seed, search) + concstore_shards(tier, seed, search, props=("C15",))[:2]
+
+PROPS["C11"]["race"] = True
+_c11 = PROPS["C11"]["shards"]
+PROPS["C11"]["shards"] = lambda tier, seed, search=False: _c11(tier, seed, search) + concstore_shards(tier, seed, search, props=("C11",))[:3]
+PROPS["C16"]["race"] = True
+_c16 = PROPS["C16"]["shards"]
+PROPS["C16"]["shards"] = lambda tier, seed, search=False: _c16(tier, seed, search) + concstore_shards(tier, seed, search, props=("C16",))[:2]
+PROPS["C11"]["rule"] = STORE_RULE + "; plus the concurrent store family: two explicit refreshes and a background tick started together while the service is held - at most one conditional request may be waiting at any time (coalescing)"
